@@ -92,6 +92,14 @@ def gen(rng, tier):
             actors[aid]["ops"] = c05.prog_ops(rng, kind, label, actors, gi)
         main.append(["exec", label, aid, gi])
         main.append(["recv", label])
+        if kind in ("recv", "sleep", "busy") and "execmodel=main_thread_only" in specs[gi] and rng.random() < 0.5:
+            # further remote_execs while the main thread is taken: each is refused after its grace period; the
+            # receiver thread must stay available for the end of the connection all the same
+            for j in range(rng.choice([1, 2, 2, 3])):
+                main.append(["exec_src", f"o{gi}_{j}", "channel.send(1)", gi])
+            if rng.random() < 0.5:
+                main.append(["sleep", rng.choice([0.5, 1.5, 3.5])])
+            progs[gi] = kind + "+overlap"
         if kind == "cbdrop":
             main.append(["recvchan", label, f"s{gi}"])
     # optional streaming of data towards a worker that receives (to die mid-transfer)
